@@ -122,12 +122,12 @@ let gmap_ops = [| "add_node"; "remove_node"; "add_edge"; "remove_edge"; "clear";
 let all_tags = [| "bool"; "err"; "panic"; "idx"; "unit"; "counts"; "row"; "wrow"; "erefs"; "nw"; "OUT-OF-FUEL"; "nat";
                   "notsorted"; "none"; "pair"; "eidxs"; "nodes"; "out"; "in"; "has"; "limit"; "some";
                   "nb"; "nbo"; "nbi"; "ed"; "edo"; "edi"; "gn"; "ge"; "el"; "nbu"; "exto"; "exti"; "elimit"; "oob";
-                  "walk"; "econn"; "missed"; "vac"; "free"; "seq"; "events"; "cycle"; "comp"; "cidx"; "scores"; "path"; "dist"; "pred"; "fw"; "fwp" |]
+                  "walk"; "econn"; "missed"; "vac"; "free"; "seq"; "events"; "cycle"; "comp"; "cidx"; "scores"; "path"; "dist"; "pred"; "fw"; "fwp"; "mse"; "msn" |]
 let view_ops = [| "node"; "out"; "in"; "neighbors_edges_mismatch"; "erefs"; "_5"; "_6"; "_7"; "_8"; "_9";
                   "dfs"; "dfs_moveto"; "dfs_reset"; "dfspost"; "bfs"; "topo"; "topo_with_initials"; "dfsvisit"; "dfspost_moveto"; "_19";
                   "connected_components"; "is_cyclic_undirected"; "toposort"; "toposort2"; "is_cyclic_directed"; "has_path";
                   "kosaraju"; "tarjan"; "bipartite"; "_29";
-                  "dijkstra"; "astar"; "ksp"; "bellman_ford"; "find_negative_cycle"; "spfa"; "floyd_warshall"; "floyd_warshall_path" |]
+                  "dijkstra"; "astar"; "ksp"; "bellman_ford"; "find_negative_cycle"; "spfa"; "floyd_warshall"; "floyd_warshall_path"; "_38"; "_39"; "kruskal"; "prim" |]
 let graph_ops = [| "add_node"; "try_add_node"; "add_edge"; "try_add_edge"; "update_edge"; "try_update_edge";
                    "remove_node"; "remove_edge"; "reverse"; "clear"; "clear_edges"; "retain_nodes"; "retain_edges";
                    "extend_with_edges"; "filter_map"; "into_edge_type"; "set_node_weight"; "set_edge_weight";
@@ -147,7 +147,7 @@ let () =
    | "C19" -> C19.run_file lines oc
    | "C01" -> run_generic graph_ops all_tags GraphIO.run_case lines oc
    | "C02" -> run_generic stable_ops all_tags StableIO.run_case lines oc
-   | "C08" | "C09" | "C10" | "C11" -> run_generic view_ops all_tags AlgoIO.run_case lines oc
+   | "C08" | "C09" | "C10" | "C11" | "C12" -> run_generic view_ops all_tags AlgoIO.run_case lines oc
    | "C03" -> run_generic gmap_ops all_tags GraphMapM.run_case lines oc
    | "C04" -> run_generic mg_ops mg_tags MatrixM.run_case lines oc
    | "C05csr" -> run_generic csr_ops csr_tags CsrM.run_case lines oc
